@@ -263,7 +263,7 @@ class TypedNode(Node):
             if deep is None:
                 deep = True
             topnodes = child._root.children
-            if isinstance(before, (int, TypedNode)) or before is True:
+            if isinstance(before, (int, TypedNode)) and before is not False:
                 topnodes = topnodes[::-1]
             for n in topnodes:
                 self.add_child(n, before=before, deep=deep)
